@@ -13,7 +13,7 @@ Open Scope N_scope.
 Theorem C05_roa_delta_iff : forall res m d,
   is_err (process_updates res m d) = true <->
   (exists c, In c (d_added d) /\ max_length_valid (rc_pl c) = false)
-  \/ (exists c, In c (d_added d) /\ contains_roa_address res (pl_pfx (rc_pl c)) = false)
+  \/ (exists c, In c (d_added d) /\ is_held_by res (pl_pfx (rc_pl c)) = false)
   \/ (exists p, In p (d_removed d) /\ rget m p = None)
   \/ ~ NoDup (d_removed d)
   \/ (exists l1 c l2, d_added d = l1 ++ c :: l2 /\ is_dup_at res (remove_all m (d_removed d)) l1 c = true).
@@ -56,15 +56,12 @@ Proof. exact explicit_pl_valid. Qed.
 Theorem C05_explicit_collapses : forall a p, explicit_pl (mkPl a p None) = explicit_pl (mkPl a p (Some (p_len p))).
 Proof. exact explicit_pl_collapses. Qed.
 
-(** The holding check against "a block of the prefix's family covers the prefix". *)
-Theorem C05_check_decomposed : forall res p,
-  p_len p <= alen (p_fam p) -> contains_roa_address res p = holds_prefix res p || cross_family_cover res p.
-Proof. exact contains_roa_address_decomposed. Qed.
-Theorem C05_check_is_held_refuted : ~ (forall res p, wf_prefix p = true -> contains_roa_address res p = holds_prefix res p).
-Proof. exact check_is_held_refuted. Qed.
-Theorem C05_check_is_held_except_cross_family : forall res p,
-  p_len p <= alen (p_fam p) -> cross_family_cover res p = false -> contains_roa_address res p = holds_prefix res p.
-Proof. exact check_is_held_except_cross_family. Qed.
+(** The holding check is "a block of the prefix's own family covers the prefix"
+    (repaired tree; the family-blind check of the pinned tree is kept as
+    [contains_roa_address_pinned] with its counterexample [check_is_held_pinned_refuted]). *)
+Theorem C05_check_is_held : forall res p,
+  p_len p <= alen (p_fam p) -> is_held_by res p = holds_prefix res p.
+Proof. exact check_is_held. Qed.
 Theorem C05_covered_iff_all_addresses : forall rs lo hi,
   separated rs -> lo <= hi -> (covered rs lo hi = true <-> forall x, lo <= x <= hi -> in_ranges rs x).
 Proof. exact covered_iff_all_addresses. Qed.
@@ -90,19 +87,14 @@ Theorem C05_aspa_ok_spec : forall res m u all evs,
   aspa_process_updates res m u = Ok (all, evs) -> forall c, aget all c = aspa_expected_get m u c.
 Proof. exact aspa_ok_spec. Qed.
 
-(** ... but the stored configuration is not always (finding F01a); it is outside F01a. *)
-Theorem C05_aspa_accepted_config_refuted :
-  ~ (forall res m u m' evs, ca_aspas_update res m u = (m', evs, None) ->
-     forall c, same_provs (aget m' c) (aspa_expected_get m u c)).
-Proof. exact aspa_accepted_config_refuted. Qed.
-
-Theorem C05_aspa_accepted_config_except_known : forall res m u m' evs,
-  aspa_simple_request u -> ca_aspas_update res m u = (m', evs, None) ->
+(** ... and so is the stored configuration (as provider sets; stored lists are kept sorted). *)
+Theorem C05_aspa_accepted_config : forall res m u m' evs,
+  ca_aspas_update res m u = (m', evs, None) ->
   forall c, same_provs (aget m' c) (aspa_expected_get m u c).
-Proof. exact aspa_accepted_config_except_known. Qed.
+Proof. exact aspa_accepted_config. Qed.
 
 Theorem C05_aspa_accepted_wellformed : forall res m u m' evs,
-  aspa_simple_request u -> ca_aspas_update res m u = (m', evs, None) ->
+  ca_aspas_update res m u = (m', evs, None) ->
   forall c ps, In c (map ad_cust (au_add u)) -> aget m' c = Some ps ->
   ps <> [] /\ ~ In c ps /\ contains_asn res c = true.
 Proof. exact aspa_accepted_wellformed. Qed.
@@ -147,19 +139,21 @@ Theorem C05_child_add_iff : forall held m c r,
 Proof. exact child_add_iff. Qed.
 
 Theorem C05_child_update_iff : forall held m c r,
-  is_err (child_update held m c r) = true <-> rs_contains held r = false \/ cget m c = None.
+  is_err (child_update held m c r) = true <->
+  rs_is_empty r = true \/ rs_contains held r = false \/ cget m c = None.
 Proof. exact child_update_iff. Qed.
 
 Theorem C05_child_refused_unchanged : forall held m o m' e, ca_child_op held m o = (m', Some e) -> m' = m.
 Proof. exact child_refused_unchanged. Qed.
 
-Theorem C05_child_update_nonempty_refuted :
-  ~ (forall held m c r evs, child_update held m c r = Ok evs -> evs <> [] -> rs_is_empty r = false).
-Proof. exact child_update_nonempty_refuted. Qed.
+Theorem C05_child_update_nonempty : forall held m c r evs,
+  child_update held m c r = Ok evs -> rs_is_empty r = false.
+Proof. exact child_update_nonempty. Qed.
 
 Theorem C05_child_update_ok_spec : forall held m c r evs,
   child_update held m c r = Ok evs ->
-  rs_contains held r = true /\ exists cur, cget m c = Some cur /\ (evs = [] /\ rs_eqb r cur = true \/ evs = [CEvUpdated c r]).
+  rs_is_empty r = false /\ rs_contains held r = true
+  /\ exists cur, cget m c = Some cur /\ (evs = [] /\ rs_eqb r cur = true \/ evs = [CEvUpdated c r]).
 Proof. exact child_update_ok_spec. Qed.
 
 Print Assumptions C05_roa_delta_iff.
@@ -171,16 +165,13 @@ Print Assumptions C05_roa_delta_ok_spec.
 Print Assumptions C05_roa_process_updates_ok_spec.
 Print Assumptions C05_explicit_valid.
 Print Assumptions C05_explicit_collapses.
-Print Assumptions C05_check_decomposed.
-Print Assumptions C05_check_is_held_refuted.
-Print Assumptions C05_check_is_held_except_cross_family.
+Print Assumptions C05_check_is_held.
 Print Assumptions C05_covered_iff_all_addresses.
 Print Assumptions C05_aspa_update_iff.
 Print Assumptions C05_aspa_refuse_spec_correct.
 Print Assumptions C05_aspa_update_atomic.
 Print Assumptions C05_aspa_ok_spec.
-Print Assumptions C05_aspa_accepted_config_refuted.
-Print Assumptions C05_aspa_accepted_config_except_known.
+Print Assumptions C05_aspa_accepted_config.
 Print Assumptions C05_aspa_accepted_wellformed.
 Print Assumptions C05_aspa_existing_iff.
 Print Assumptions C05_aspa_existing_atomic.
@@ -191,5 +182,5 @@ Print Assumptions C05_bgpsec_replay_exact.
 Print Assumptions C05_child_add_iff.
 Print Assumptions C05_child_update_iff.
 Print Assumptions C05_child_refused_unchanged.
-Print Assumptions C05_child_update_nonempty_refuted.
+Print Assumptions C05_child_update_nonempty.
 Print Assumptions C05_child_update_ok_spec.
